@@ -26,7 +26,7 @@ FLOORS = {'quick': {'evaluations': 60000, 'nontrivial': 20000}, 'thorough': {'ev
 
 FORMS = {
     'H1': '=VLOOKUP(F1,A1:D8,G1,FALSE)', 'H2': '=VLOOKUP(F1,A1:D8,G1,TRUE)', 'H3': '=VLOOKUP(F1,A1:D8,G1)',
-    'H4': '=VLOOKUP(F1;A1:D8;G1;0)',
+    'H4': '=VLOOKUP(F1;A1:D8;G1;0)', 'H5': '=VLOOKUP(F1,A1:D8,ROUND(G1,0),FALSE)', 'H6': '=VLOOKUP(F1,A1:D8,G1/1,0)',
     'I1': '=MATCH(F1,A1:A8,0)', 'I2': '=MATCH(F1,A1:A8,1)', 'I3': '=MATCH(F1,A1:A8)',
     'J1': '=XMATCH(F1,A1:A8)', 'J2': '=XMATCH(F1,A1:A8,0)', 'J3': '=XMATCH(F1,A1:A8,0,1)', 'J4': '=XMATCH(F1,A1:A8,0,-1)',
     'K1': '=INDEX(B1:B8,MATCH(F1,A1:A8,0))', 'K2': '=INDEX(A1:D8,MATCH(F1,A1:A8,0),G1)', 'K3': '=INDEX(C1:C8,XMATCH(F1,A1:A8,0,-1))',
@@ -63,6 +63,10 @@ def make_table(rng, kind):
         keys = rng.sample(range(1, 40), n)
         for i in rng.sample(range(n), 2):
             keys[i] = None
+    elif kind == 'asc_tail_blank':
+        # a table sized generously: the ascending keys end before the area does (the value columns may go on)
+        m = rng.randrange(3, 7)
+        keys = sorted(rng.sample(range(-5, 40), m)) + [None] * (n - m)
     elif kind == 'mixed_int_float':
         keys = sorted(rng.sample(range(0, 30), n))
         keys = [float(k) if i % 2 else k for i, k in enumerate(keys)]
@@ -71,7 +75,8 @@ def make_table(rng, kind):
         if k is not None:
             cells[f'A{i + 1}'] = k
         for j, col in enumerate('BCD'):
-            cells[f'{col}{i + 1}'] = 1000 * (j + 2) + i + 1
+            if k is not None or kind != 'asc_tail_blank' or rng.random() < 0.5:
+                cells[f'{col}{i + 1}'] = 1000 * (j + 2) + i + 1
     return keys, cells
 
 
@@ -87,6 +92,8 @@ def lookups_for(rng, kind, keys):
     else:
         lo, hi = min(real), max(real)
         out += [lo - 1, hi + 1, hi + 100, lo - 0.5]
+        if None in keys:
+            out += [0, 0.0]          # a blank key cell is not the key 0
         srt = sorted(set(real))
         for a, b in zip(srt, srt[1:]):
             if b - a > 1 or isinstance(a, float) or isinstance(b, float):
@@ -97,7 +104,7 @@ def lookups_for(rng, kind, keys):
     return out
 
 
-KINDS = ['asc_int', 'asc_float', 'asc_dup', 'unsorted', 'unsorted_dup', 'text', 'text_unsorted_dup', 'with_blanks', 'mixed_int_float', 'digit_text']
+KINDS = ['asc_int', 'asc_float', 'asc_dup', 'unsorted', 'unsorted_dup', 'text', 'text_unsorted_dup', 'with_blanks', 'mixed_int_float', 'digit_text', 'asc_tail_blank']
 
 
 def classify(case, out, outs):
@@ -132,6 +139,8 @@ def _plan(tier, seed):
     for i, kind in enumerate(KINDS):
         shards.append({'kind': 'lookup', 'table': kind, 'books': nb})
     shards.append({'kind': 'index'})
+    shards.append({'kind': 'horizontal', 'books': 6 if tier == 'quick' else 40})
+    shards.append({'kind': 'addressopt', 'books': 3 if tier == 'quick' else 20})
     shards.append({'kind': 'wholecol', 'books': 4 if tier == 'quick' else 30})
     for part in range(4):
         shards.append({'kind': 'address', 'part': part, 'parts': 4})
@@ -155,7 +164,7 @@ def run_lookup(shard, ctx):
         spec = wbspec.spec(wbspec.sheet('T', cells))
         vals = []
         for lv in lookups_for(rng, kind, keys):
-            for col in ([1, 2, 3, 4] if bi % 2 == 0 else [rng.randrange(1, 5)]):
+            for col in ([1, 2, 3, 4] if bi % 2 == 0 else [rng.randrange(1, 5), rng.choice([0, 5, -1, 6, 2.0])]):
                 vals.append([(0, 'F1', lv), (0, 'G1', col)])
 
         def nontrivial(case, outs):
@@ -197,6 +206,83 @@ def run_wholecol(shard, ctx):
         judge_book(ctx, ID, spec, targets, vals, exact=True, err_exact=lambda case: not case['formula'].startswith('=INDEX'), classify=classify,
                    nontrivial=lambda case, outs: True, name=f'wc{bi}', case_extra={'keys': keys, 'table': 'wholecol'}, monitor='lookup-reference')
     r.sample({'table': 'whole columns of uneven height', 'formulas': ['=VLOOKUP(F1,Data!A:C,G1,FALSE)', '=MATCH(F1,Data!A:A,1)']})
+
+
+HFORMS = {
+    'B5': '=MATCH(F5,A1:H1,0)', 'B6': '=MATCH(F5,A1:H1,1)', 'B7': '=MATCH(F5,$A$1:$H$1)', 'B8': '=XMATCH(F5,A1:H1)', 'B9': '=XMATCH(F5,A1:H1,0,-1)',
+    'B10': '=INDEX(A2:H2,MATCH(F5,A1:H1,0))', 'B11': '=INDEX(A1:H3,G5,MATCH(F5,A1:H1,0))', 'B12': '=MATCH(F5,C1,0)', 'B13': '=MATCH(F5,C1:C1,0)',
+    'B14': '=XMATCH(F5,D1:D1)', 'B15': '=MATCH(F5,C1,1)', 'B16': '=INDEX(A3:H3,XMATCH(F5,A1:H1,0,-1))', 'B17': '=MATCH(F5,B1:G1,0)', 'B18': '=IFERROR(MATCH(F5,B1:G1,0),0)+IFERROR(MATCH(F5,A1:A3,0),0)',
+}
+HAPPROX = {'B6', 'B7', 'B15'}
+
+
+def run_horizontal(shard, ctx):
+    """key vectors lying in a ROW (the header row of a table) and single-cell key vectors: the position is counted along the row"""
+    r, rng = ctx.r, ctx.rng
+    for bi in range(shard['books']):
+        kind = ['asc', 'unsorted', 'dup', 'text', 'gaps'][bi % 5]
+        n = 8
+        if kind == 'asc':
+            keys = sorted(rng.sample(range(-9, 50), n))
+        elif kind == 'unsorted':
+            keys = rng.sample(range(-9, 50), n)
+        elif kind == 'dup':
+            base = rng.sample(range(0, 20), 5)
+            keys = base + rng.sample(base, 3)
+            rng.shuffle(keys)
+        elif kind == 'text':
+            keys = rng.sample(['apple', 'bee', 'cat', 'dog', 'eel', 'fox', 'gnu', 'hen', 'ibis', 'jay'], n)
+        else:
+            keys = rng.sample(range(1, 50), n)
+            for i in rng.sample(range(1, n), 2):
+                keys[i] = None
+        cells = {'F5': keys[0], 'G5': 2}
+        for i, k in enumerate(keys):
+            col = get_column_letter(i + 1)
+            if k is not None:
+                cells[f'{col}1'] = k
+            cells[f'{col}2'] = 2000 + i + 1
+            cells[f'{col}3'] = 3000 + i + 1
+        targets = []
+        for addr, f in HFORMS.items():
+            if addr in HAPPROX and kind != 'asc':
+                continue
+            cells[addr] = f
+            targets.append((0, addr))
+        spec = wbspec.spec(wbspec.sheet('T', cells))
+        real = [k for k in keys if k is not None]
+        looks = list(dict.fromkeys(real)) + (['zebra', 'BEE', 'Cat'] if kind == 'text' else [min(real) - 1, max(real) + 3, 0, float(real[1])])
+        vals = [[(0, 'F5', lv), (0, 'G5', g)] for lv in looks for g in ((1, 2, 3) if bi % 2 == 0 else (rng.randrange(1, 4),))]
+        judge_book(ctx, ID, spec, targets, vals, exact=True, err_exact=lambda case: not case['formula'].startswith('=INDEX'),
+                   classify=classify, nontrivial=lambda case, outs: not (is_num(outs[0]) and outs[0] == 1), name=f'hz{bi}',
+                   case_extra={'keys': keys, 'table': 'row:' + kind}, monitor='lookup-reference')
+        r.count('horizontal_key_vectors')
+    r.sample({'table': 'keys in a row / a single cell', 'formulas': list(HFORMS.values())[:6]})
+
+
+def run_addressopt(shard, ctx):
+    """the optional arguments of ADDRESS (kind of reference 1-4, A1 / R1C1 style, sheet name) given as literals, cells and conditionals:
+    they are VALUES; the statement's clause ADDRESS(r,c) must keep holding whatever the third argument is computed from"""
+    r, rng = ctx.r, ctx.rng
+    names = ['Sh', 'Data_1', 'My Sheet', 'A1', 'x-y', 'Лист', 'T']
+    for bi in range(shard['books']):
+        cells = {'F1': 3, 'G1': 2, 'K1': 1, 'L1': True, 'M1': 'Sh', 'N1': 5}
+        forms = ['=ADDRESS(F1,G1,K1)', '=ADDRESS(F1,G1,IF(N1>3,4,1))', '=ADDRESS(F1,G1,K1,L1)', '=ADDRESS(F1,G1,K1,L1,M1)', '=ADDRESS(F1,G1,IFS(N1>3,2,TRUE,3),N1>3)',
+                 '=ADDRESS(F1,G1,4,TRUE,M1)', '=ADDRESS(F1,G1,1,FALSE,"Sh")', '=ADDRESS(F1,G1,2,0)', '=ADDRESS(F1,G1,3,1,"My Sheet")', '=ADDRESS(F1,G1,SUM(K1,0),TRUE,M1&"")',
+                 '=ADDRESS(F1,G1,MIN(K1,4))', '=ADDRESS(F1;G1;K1;L1)', '=ADDRESS(F1,G1,4)&"|"&ADDRESS(G1,F1,K1)', '=ADDRESS(F1,G1,K1,N1>3,IF(N1>3,M1,"Other"))',
+                 f'=ADDRESS({rng.randrange(1, 99)},{rng.randrange(1, 700)},{rng.randrange(1, 5)})', f'=ADDRESS({rng.randrange(1, 99)},{rng.randrange(1, 700)},{rng.randrange(1, 5)},FALSE)']
+        targets = []
+        for i, f in enumerate(forms):
+            cells[f'H{i + 1}'] = f
+            targets.append((0, f'H{i + 1}'))
+        spec = wbspec.spec(wbspec.sheet('T', cells))
+        vals = []
+        for _ in range(30 if ctx.tier == 'quick' else 80):
+            vals.append([(0, 'F1', rng.choice([1, 7, 77, 1048576, rng.randrange(1, 5000)])), (0, 'G1', rng.choice([1, 26, 27, 52, 702, 703, 16384, rng.randrange(1, 16385)])),
+                         (0, 'K1', rng.randrange(1, 5)), (0, 'L1', rng.choice([True, False, 1, 0])), (0, 'M1', rng.choice(names)), (0, 'N1', rng.choice([1, 5]))])
+        judge_book(ctx, ID, spec, targets, vals, exact=True, nontrivial=lambda case, outs: True, name=f'ao{bi}', monitor='address-optional-arguments')
+        r.count('address_optional_argument_books')
+    r.sample({'fn': 'ADDRESS with 3-5 arguments', 'formulas': ['=ADDRESS(F1,G1,IF(N1>3,4,1))', '=ADDRESS(F1,G1,K1,L1,M1)']})
 
 
 def run_index(shard, ctx):
@@ -351,7 +437,7 @@ def run_shard(shard, ctx):
         if c.get('fn') == 'ADDRESS':
             return run_address({'cols': [c['col']]}, ctx)
         return replay_case(ctx, ID, c, exact=True, err_exact=lambda case: not case['formula'].startswith('=INDEX(B1') and not case['formula'].startswith('=INDEX(A1:D8,M') and not case['formula'].startswith('=INDEX(C1'), classify=classify)
-    {'lookup': run_lookup, 'index': run_index, 'address': run_address, 'column': run_column, 'wholecol': run_wholecol}[shard['kind']](shard, ctx)
+    {'lookup': run_lookup, 'horizontal': run_horizontal, 'addressopt': run_addressopt, 'index': run_index, 'address': run_address, 'column': run_column, 'wholecol': run_wholecol}[shard['kind']](shard, ctx)
 
 
 def finish(r, tier, seed):
